@@ -591,10 +591,11 @@ class GibbsTempo(BaseAPIClass):
         max_step = self._parameters.n_steps
         propagators = self._system.get_unitary_propagators(
             - 1j * self._dt, 0, 0, 0)
+        # the backend contracts the transpose of the matrix it is handed
         self._backend_instance = TIBaseBackend(
                 dim,
                 epsrel,
-                propagators(1)[0],
+                propagators(1)[0].T,
                 coeffs,
                 operators,
                 max_step=max_step,
